@@ -14,6 +14,7 @@ import (
 	"net"
 	"net/http"
 	"net/http/httptest"
+	"net/url"
 	"strconv"
 	"strings"
 	"sync"
@@ -253,6 +254,9 @@ func runE2E(op string, rep *hx.Report) string {
 		return "skip " + err.Error()
 	}
 	defer rig.Close()
+	if kvGet(ws, "rogue") != "" {
+		rig.SideDialDelay = 150 * time.Millisecond // every side dial stays pending for a while
+	}
 	ep, err := rig.Endpoint("a")
 	if err != nil {
 		return "skip " + err.Error()
@@ -262,6 +266,32 @@ func runE2E(op string, rep *hx.Report) string {
 		if p, ok := snix.PadHello(hello, hl); ok {
 			hello = p
 		}
+	}
+	if kvGet(ws, "rogue") != "" {
+		// somebody who knows the endpoint's name and guesses session numbers keeps offering side connections
+		// with wrong keys while real connections are being set up
+		stopRogue := make(chan struct{})
+		defer close(stopRogue)
+		for g := 0; g < 3; g++ {
+			go func() {
+				for id := 0; ; id = (id + 1) % 40 {
+					select {
+					case <-stopRogue:
+						return
+					default:
+					}
+					u := fmt.Sprintf("ws://%s/a?side=%s", rig.TS.Listener.Addr().String(), url.QueryEscape(fmt.Sprintf(`{"ID":%d,"Key":12345}`, id)))
+					if c, _, err := websocket.DefaultDialer.Dial(u, nil); err == nil {
+						c.WriteMessage(websocket.BinaryMessage, []byte("bytes of the intruder"))
+						time.Sleep(2 * time.Millisecond)
+						c.Close()
+					}
+				}
+			}()
+		}
+	}
+	if kvGet(ws, "backlog") != "" {
+		return runBacklog(op, rep, rig, ep, hello, mode)
 	}
 	if slow, _ := strconv.Atoi(kvGet(ws, "slowapp")); slow > 0 {
 		return runSlowApp(op, rep, rig, ep, hello, mode, up, slow, seed)
@@ -425,6 +455,69 @@ func runE2E(op string, rep *hx.Report) string {
 	}
 	hx.WithTimeout(10*time.Second, wg.Wait)
 	return fmt.Sprintf("ok up=%d down=%d", len(got), len(clGot))
+}
+
+// runBacklog: the application is slow to accept; a dozen connections queue up at the endpoint; the endpoint is
+// then replaced by a newer one (its tunnel goes away); the application finally accepts what it was handed.
+// Every stream it gets must end: the bytes that did arrive, then end of stream — never a read that blocks for ever.
+func runBacklog(op string, rep *hx.Report, rig *snix.Rig, ep *sniproxy.Endpoint, hello []byte, mode string) string {
+	var fronts []net.Conn
+	defer func() {
+		for _, c := range fronts {
+			c.Close()
+		}
+	}()
+	for i := 0; i < 13; i++ {
+		c, err := net.Dial("tcp", rig.Lis.Addr().String())
+		if err != nil {
+			return "skip " + err.Error()
+		}
+		fronts = append(fronts, c)
+		c.Write(hello)
+	}
+	time.Sleep(300 * time.Millisecond)
+	if _, err := rig.Endpoint("a"); err != nil { // the newer endpoint under the same name
+		return "skip " + err.Error()
+	}
+	time.Sleep(300 * time.Millisecond)
+	var got []net.Conn
+	for errs := 0; errs < 40 && len(got) < len(fronts); {
+		ch := make(chan net.Conn, 1)
+		go func() {
+			c, err := ep.Accept()
+			if err != nil {
+				ch <- nil
+				return
+			}
+			ch <- c
+		}()
+		select {
+		case c := <-ch:
+			if c == nil {
+				errs++
+				time.Sleep(5 * time.Millisecond)
+			} else {
+				got = append(got, c)
+			}
+		case <-time.After(15 * time.Second):
+			rep.Fail("stream-end-not-delivered:"+mode, "Accept on the replaced endpoint still blocked after 15 s", []string{op})
+			return "failed"
+		}
+	}
+	for i, c := range got {
+		c.SetReadDeadline(time.Now().Add(15 * time.Second))
+		data, err := io.ReadAll(c)
+		c.Close()
+		if ne, ok := err.(net.Error); ok && ne.Timeout() {
+			rep.Fail("stream-end-not-delivered:"+mode, fmt.Sprintf("connection %d, handed to the application around the loss of its tunnel, delivered %d bytes and then neither data nor the end of the stream for 15 s", i, len(data)), []string{op})
+			return "failed"
+		}
+		if !bytes.HasPrefix(hello, data) {
+			rep.Fail("up-stream-altered:"+mode, fmt.Sprintf("connection %d delivered bytes that its client did not send", i), []string{op})
+			return "failed"
+		}
+	}
+	return fmt.Sprintf("ok backlog accepted=%d", len(got))
 }
 
 // runSlowApp: the application reads a little of what the client sent, pauses for `slow` seconds in the
@@ -938,6 +1031,10 @@ func main() {
 			ops = append(ops, fmt.Sprintf("e2e mode=%s up=%d down=%d seed=%d close=client idle=%d", mode, 70000, 90000, r.U64()%100000, 40))
 		}
 		// a tunnel that has served more than 2^16 calls, and connections older than any plausible timeout constant
+		for _, mode := range []string{"siding", "siding-addr"} {
+			ops = append(ops, fmt.Sprintf("e2e mode=%s up=%d down=%d seed=%d close=client par=%d rogue=1", mode, 20000, 30000, r.U64()%100000, 24))
+		}
+		ops = append(ops, "e2e mode=legacy up=0 down=0 seed=1 close=client backlog=1")
 		ops = append(ops, "e2e mode=legacy up=300000 down=0 seed=5 close=client slowapp=4")
 		ops = append(ops, "e2e mode=legacy up=0 down=0 seed=1 close=client calls=70000 age=6")
 		ops = append(ops, "e2e mode=siding up=0 down=0 seed=1 close=client calls=5000 age=6")
